@@ -629,6 +629,19 @@ func (c *Ctx) flowsToSort(app *ssa.Call, mr mapRange) bool {
 func (c *Ctx) webSorted(start ssa.Value) (sorted, returned bool) {
 	web := map[ssa.Value]bool{}
 	var grow func(v ssa.Value, d int)
+	// growCell: w joins the web, and with it every other reading of the cell w was read from
+	growCell := func(w ssa.Value, d int) {
+		grow(w, d)
+		if ld, isL := w.(*ssa.UnOp); isL && ld.Op == token.MUL {
+			if cell, isA := ld.X.(*ssa.Alloc); isA {
+				for _, rr := range *cell.Referrers() {
+					if u, isU := rr.(*ssa.UnOp); isU {
+						grow(u, d)
+					}
+				}
+			}
+		}
+	}
 	grow = func(v ssa.Value, d int) {
 		if v == nil || web[v] || d > 16 {
 			return
@@ -660,6 +673,46 @@ func (c *Ctx) webSorted(start ssa.Value) (sorted, returned bool) {
 				}
 			case *ssa.Return:
 				returned = true
+			case *ssa.IndexAddr:
+				// copied element by element into another slice (each element wrapped with its sort key, say): what
+				// happens to that slice is what happens to the order
+				if x.X != v {
+					continue
+				}
+				for _, rr := range *x.Referrers() {
+					ld, isL := rr.(*ssa.UnOp)
+					if !isL || ld.Op != token.MUL {
+						continue
+					}
+					for _, use := range forwardUses(ld, 4) {
+						st, isS := use.(*ssa.Store)
+						if !isS {
+							continue
+						}
+						if ia, isIA := st.Addr.(*ssa.IndexAddr); isIA {
+							growCell(ia.X, d+1)
+						} else if fa, isFA := st.Addr.(*ssa.FieldAddr); isFA {
+							if ia, isIA := fa.X.(*ssa.IndexAddr); isIA {
+								growCell(ia.X, d+1)
+							} else if lit, isA := fa.X.(*ssa.Alloc); isA {
+								// a structure written on the spot and then put into the other slice as a whole
+								for _, lr := range *lit.Referrers() {
+									whole, isW := lr.(*ssa.UnOp)
+									if !isW {
+										continue
+									}
+									for _, wr := range *whole.Referrers() {
+										if st2, isS2 := wr.(*ssa.Store); isS2 && st2.Val == ssa.Value(whole) {
+											if ia2, isIA2 := st2.Addr.(*ssa.IndexAddr); isIA2 {
+												growCell(ia2.X, d+1)
+											}
+										}
+									}
+								}
+							}
+						}
+					}
+				}
 			}
 		}
 	}
@@ -803,7 +856,7 @@ var selectJustified = map[string]string{
 
 func ruleErrTotal(c *Ctx) []Obligation {
 	const R = "ERR.TOTAL"
-	less := c.Fn("yang.(sortedErrors).Less")
+	less, scope := c.errorOrder()
 	if less == nil {
 		return []Obligation{undecided(R, "error comparator", "-", "sortedErrors.Less not found")}
 	}
@@ -811,10 +864,10 @@ func ruleErrTotal(c *Ctx) []Obligation {
 	pos := c.Pos(less.Pos())
 	var splitN int64 = -1
 	unbounded := false
-	// the split may sit in a private helper that both operands go through; a list of pieces the helper writes out
-	// itself must not be longer than the bounded split
+	// the split may sit in a private helper that both operands go through, or be done once per error before the sort; a
+	// list of pieces the helper writes out itself must not be longer than the bounded split
 	var literal int64 = -1
-	c.eachInstrDeep(less, func(in ssa.Instruction) {
+	eachInstrOf(scope, func(in ssa.Instruction) {
 		if al, isA := in.(*ssa.Alloc); isA && in.Parent() != less {
 			if pt, isP := al.Type().(*types.Pointer); isP {
 				if at, isArr := pt.Elem().Underlying().(*types.Array); isArr && isStringType(at.Elem()) && at.Len() > literal {
@@ -827,7 +880,7 @@ func ruleErrTotal(c *Ctx) []Obligation {
 			return
 		}
 		if calleeIs(call, "strings", "SplitN") {
-			if k, okk := constInt(resolveArg(call.Call.Args[2])); okk {
+			if k, okk := constInt(c.constAtSites(call.Call.Args[2])); okk {
 				splitN = k
 			}
 		}
@@ -846,7 +899,7 @@ func ruleErrTotal(c *Ctx) []Obligation {
 	}
 	// the comparison loop bound: i < N with the same N; index 0 compared separately
 	var bound int64 = -1
-	eachInstr(less, func(in ssa.Instruction) {
+	eachInstrOf(c.staticReach(less, 2), func(in ssa.Instruction) {
 		bo, ok := in.(*ssa.BinOp)
 		if !ok || bo.Op != token.LSS {
 			return
@@ -1137,4 +1190,126 @@ func (c *Ctx) constantStoresOnly(mr mapRange) bool {
 func isStringType(t types.Type) bool {
 	b, ok := t.Underlying().(*types.Basic)
 	return ok && b.Info()&types.IsString != 0
+}
+
+// forwardUses: the instructions that use v, or a value computed directly from it (composite value construction,
+// conversions), up to the given depth.
+func forwardUses(v ssa.Value, depth int) []ssa.Instruction {
+	var out []ssa.Instruction
+	seen := map[ssa.Value]bool{}
+	var walk func(x ssa.Value, d int)
+	walk = func(x ssa.Value, d int) {
+		if seen[x] || d > depth || x.Referrers() == nil {
+			return
+		}
+		seen[x] = true
+		for _, r := range *x.Referrers() {
+			out = append(out, r)
+			switch y := r.(type) {
+			case *ssa.Convert, *ssa.ChangeType, *ssa.MakeInterface, *ssa.Phi:
+				walk(y.(ssa.Value), d+1)
+			}
+		}
+	}
+	walk(v, 0)
+	return out
+}
+
+// errorOrder: the comparator the error sorter sorts with — the Less method of whatever type it hands to sort.Sort —
+// and the functions in which the order is made: the sorter, the comparator, and what they call in the repository.
+func (c *Ctx) errorOrder() (*ssa.Function, []*ssa.Function) {
+	var less *ssa.Function
+	if es := c.Fn("yang.errorSort"); es != nil {
+		eachInstr(es, func(in ssa.Instruction) {
+			call, isC := in.(*ssa.Call)
+			if !isC || !(calleeIs(call, "sort", "Sort") || calleeIs(call, "sort", "Stable")) || len(call.Call.Args) != 1 {
+				return
+			}
+			if mi, isMI := call.Call.Args[0].(*ssa.MakeInterface); isMI {
+				if m := c.Prog.LookupMethod(mi.X.Type(), es.Pkg.Pkg, "Less"); m != nil {
+					less = m
+				}
+			}
+		})
+		if less != nil {
+			scope := c.staticReach(es, 2)
+			for _, f := range c.staticReach(less, 2) {
+				dup := false
+				for _, g := range scope {
+					if g == f {
+						dup = true
+					}
+				}
+				if !dup {
+					scope = append(scope, f)
+				}
+			}
+			return less, scope
+		}
+	}
+	less = c.Fn("yang.(sortedErrors).Less")
+	if less == nil {
+		return nil, nil
+	}
+	return less, c.staticReach(less, 2)
+}
+
+// staticReach: fn and the repository functions it reaches through static calls, to the given depth.
+func (c *Ctx) staticReach(fn *ssa.Function, depth int) []*ssa.Function {
+	out := []*ssa.Function{fn}
+	seen := map[*ssa.Function]bool{fn: true}
+	frontier := []*ssa.Function{fn}
+	for d := 0; d < depth; d++ {
+		var next []*ssa.Function
+		for _, f := range frontier {
+			eachInstr(f, func(in ssa.Instruction) {
+				ci, isC := in.(ssa.CallInstruction)
+				if !isC {
+					return
+				}
+				if cal := ci.Common().StaticCallee(); cal != nil && c.isRepoFn(cal) && cal.Blocks != nil && !seen[cal] {
+					seen[cal] = true
+					out = append(out, cal)
+					next = append(next, cal)
+				}
+			})
+		}
+		frontier = next
+	}
+	return out
+}
+
+func eachInstrOf(fns []*ssa.Function, f func(ssa.Instruction)) {
+	for _, fn := range fns {
+		eachInstr(fn, f)
+	}
+}
+
+// constAtSites: v, or — when v is a parameter — the one constant every static call of its function hands in.
+func (c *Ctx) constAtSites(v ssa.Value) ssa.Value {
+	v = resolveArg(v)
+	p, isP := v.(*ssa.Parameter)
+	if !isP {
+		return v
+	}
+	idx := paramIndex(p.Parent(), p)
+	node := c.Graph().Nodes[p.Parent()]
+	if node == nil || idx < 0 {
+		return v
+	}
+	var k *ssa.Const
+	for _, e := range node.In {
+		if e.Site == nil || e.Site.Common().StaticCallee() != p.Parent() || idx >= len(e.Site.Common().Args) {
+			return v
+		}
+		a, isK := e.Site.Common().Args[idx].(*ssa.Const)
+		if !isK || k != nil && (k.Value == nil || a.Value == nil || k.Value.ExactString() != a.Value.ExactString()) {
+			return v
+		}
+		k = a
+	}
+	if k == nil {
+		return v
+	}
+	return k
 }
